@@ -875,6 +875,9 @@ def normalise_callee(callee):
     'connection_error_creators::<impl ConnectionInner<C, B>>::close_if_needed' -> 'connection_error_creators::ConnectionInner::close_if_needed'
     'Option::<StreamId>::map::<..>' -> 'Option::map'"""
     c = callee.strip()
+    for pre in ("std::option::", "core::option::", "std::result::", "core::result::", "std::task::", "core::task::",
+                "std::pin::", "core::pin::", "std::ops::", "core::ops::"):
+        c = c.replace(pre, "")
     m = re.match(r"^<(.+)>::(\w+)(::<.*>)?$", c)
     if m and mir.find_top(m.group(1), " as ") >= 0:
         k = mir.find_top(m.group(1), " as ")
